@@ -14,7 +14,7 @@ def check(pid, technique, text, note, design_ref):
 
 check(
     "C12",
-    "property-based testing: Hypothesis grammar-generated documents, partition/round-trip oracle over the token stream",
+    "property-based testing: Hypothesis grammar-generated documents plus an enumerated family of long documents (every kind of line break, up to 70K / 300K characters), partition/round-trip oracle over the token stream",
     "Generated-input search (exploration). Every generated document is tokenized by each of the three shipped "
     "tokenizers and the partition invariants are checked directly (concatenation == text, offsets index their own "
     "text, increasing non-overlapping order, index list == positions of special tokens). No absence claim.",
@@ -42,7 +42,7 @@ check(
 )
 check(
     "C04",
-    "fuzzing / property-based testing: hostile-string generation, crash oracle with exception bucketing by (type, innermost eyecite frame)",
+    "fuzzing / property-based testing: hostile-string generation plus enumerated long and degenerate inputs, crash oracle with exception bucketing by (type, innermost eyecite frame); every text is extracted twice with one tokenizer object",
     "Generated-input search (exploration): get_citations -> resolve_citations -> annotate_citations in all three "
     "tag modes, for three tokenizers x remove_ambiguous; any escaping exception is a violation, bucketed by raise site.",
     "Lone surrogates and documented 'raises ValueError on an unknown option' contracts are outside the domain.",
@@ -50,7 +50,7 @@ check(
 )
 check(
     "C13",
-    "property-based testing: regex-directed string generation per extractor (language-inclusion search) + differential testing of filtered vs reference tokenizer on generated documents and extractor sub-lists",
+    "property-based testing: regex-directed string generation per extractor (language-inclusion search) + differential testing of filtered vs reference tokenizer on generated documents and extractor sub-lists, on every string derived from one extractor per template shape, and on long texts with a token across power-of-two offsets",
     "Generated-input search (exploration): per-extractor members of the pattern language must be selected by the "
     "filter; token streams of AhocorasickTokenizer(L) and Tokenizer(L) are compared token by token for generated "
     "documents and generated extractor lists.",
@@ -87,9 +87,10 @@ check(
 check(
     "C06",
     "exhaustive bounded enumeration of citation-kind sequences (real extracted objects) + property-based testing on extracted lists; partition-validity oracle with independent equality",
-    "Exhaustive over all sequences up to length 4 (quick) / 5 (thorough) of a 21-letter alphabet of real citation "
+    "Exhaustive over all sequences up to length 4 (quick) / 5 (thorough) of a 31-letter alphabet of real citation "
     "objects, plus lists extracted from generated documents; the output mapping is checked as a faithful ordered "
-    "partition with an equality decided independently of __eq__/__hash__.",
+    "partition with an equality decided independently of __eq__/__hash__; short sequences are resolved again together "
+    "with copies / pickles of their full citations.",
     "Bounded history length; default resolvers only; corrected_reporter() trusted (C16).",
     "DESIGN.md section 3 / C06-C08",
 )
@@ -150,7 +151,7 @@ check(
 
 check(
     "C15",
-    "property-based testing with harness-owned nondeterminism: differential across fresh processes with different PYTHONHASHSEED, data-encoded call histories, and a deterministic cooperative thread scheduler (sys.settrace) driven by Hypothesis-drawn schedules",
+    "property-based testing with harness-owned nondeterminism: differential across fresh processes with different PYTHONHASHSEED, data-encoded call histories, and a deterministic cooperative thread scheduler (sys.settrace) driven by Hypothesis-drawn schedules plus exhaustive single-preemption sweeps (cold start on a geometric grid, warm tokenizer at every line event)",
     "Generated-input search (exploration) over texts x hash seeds x call histories x thread schedules: canonical "
     "serialisations of get_citations results must be identical across fresh interpreters with different hash seeds, "
     "across positions in generated call histories (earlier results re-serialised after every step), and under "
@@ -181,7 +182,7 @@ check(
 
 check(
     "C14",
-    "differential property-based testing (Hyperscan vs reference tokenizer at candidate and citation level on generated multi-byte documents) + fault injection on the cache file (truncation lengths, bit flips, header fields, garbage) observed from child processes",
+    "differential property-based testing (Hyperscan vs reference tokenizer at candidate and citation level on generated multi-byte documents and on every string derived from one extractor per template shape) + fault injection on the cache file (truncation lengths, bit flips, header fields, garbage) observed from child processes",
     "Generated-input search plus fault enumeration: candidate containment and genuineness of extras on generated "
     "documents in the stated character domain; every truncation length class (thorough: every length) and header bit "
     "of a freshly written cache file, plus sampled body corruptions, must lead to the same tokens as without a cache, "
